@@ -3,6 +3,7 @@
 package absnfs
 
 import (
+	"reflect"
 	"fmt"
 	"io"
 	"log"
@@ -341,6 +342,92 @@ func TestVerif_C27(t *testing.T) {
 		wg.Wait()
 		rec.Eval(dumps)
 		rec.Distinct(fmt.Sprintf("concurrent-dump|dumps>0=%v", dumps > 0))
+	}
+	// ---- concurrent SET/UNSET by several loopback peers, each on its own keys (DUMP readers running):
+	// a peer's keys are touched by nobody else, so the final registry must be the union of what the
+	// replies told each peer about its own keys ----
+	for ep := 0; ep < evid.Pick(6, 120); ep++ {
+		pm := NewPortmapper()
+		pm.logger = log.New(io.Discard, "", 0)
+		lo, _ := net.ResolveTCPAddr("tcp", "127.0.0.1:902")
+		const peers = 6
+		finals := make([]map[vfPmKey]uint32, peers)
+		var bad sync.Map
+		var wg sync.WaitGroup
+		stop := make(chan struct{})
+		var rd sync.WaitGroup
+		for r := 0; r < 2; r++ {
+			rd.Add(1)
+			go func(r int) {
+				defer rd.Done()
+				for i := 0; ; i++ {
+					select {
+					case <-stop:
+						return
+					default:
+					}
+					pm.handleCall(xdrw.CallHeader(uint32(70000+i), 100000, []uint32{2, 3, 4}[i%3], 4, xdrw.Cred{}), lo)
+				}
+			}(r)
+		}
+		for w := 0; w < peers; w++ {
+			wg.Add(1)
+			go func(w int) {
+				defer wg.Done()
+				rng := evid.Rng(2727, int64(ep), int64(w))
+				mine := map[vfPmKey]uint32{}
+				for i := 0; i < 150; i++ {
+					k := vfPmKey{uint32(200000 + w), uint32(1 + rng.Intn(12)), 6}
+					port := uint32(3000 + rng.Intn(1000))
+					proc := uint32(1 + rng.Intn(2))
+					args := (&xdrw.W{}).U32(k.prog).U32(k.vers).U32(k.prot).U32(port).B
+					raw, err := pm.handleCall(append(xdrw.CallHeader(uint32(w*1000+i), 100000, 2, proc, xdrw.Cred{}), args...), lo)
+					if err != nil {
+						bad.Store(fmt.Sprintf("peer %d: no reply: %v", w, err), true)
+						return
+					}
+					rep, derr := rfc.DecodeReply(raw)
+					if derr != nil || rep.Denied || rep.AcceptStat != 0 {
+						bad.Store(fmt.Sprintf("peer %d: call not accepted", w), true)
+						return
+					}
+					// the peer follows what the replies claim: TRUE to SET - the key is registered with
+					// this port; TRUE to UNSET - it is gone; FALSE - nothing changed
+					if v, _ := rfc.DecodeU32(rep.Body); v != 0 {
+						if proc == 1 {
+							mine[k] = port
+						} else {
+							delete(mine, k)
+						}
+					}
+				}
+				finals[w] = mine
+			}(w)
+		}
+		wg.Wait()
+		close(stop)
+		rd.Wait()
+		rec.Eval(peers * 150)
+		bad.Range(func(k, _ any) bool {
+			rec.Violate("C27/loopback-call-not-answered/concurrent-peers-on-disjoint-keys", k.(string), nil)
+			return false
+		})
+		want := map[vfPmKey]uint32{}
+		for _, m := range finals {
+			for k, p := range m {
+				want[k] = p
+			}
+		}
+		got := map[vfPmKey]uint32{}
+		for _, m := range pm.GetMappings() {
+			if m.Program >= 200000 {
+				got[vfPmKey{m.Program, m.Version, m.Protocol}] = m.Port
+			}
+		}
+		if !reflect.DeepEqual(got, want) {
+			rec.Violate("C27/registry-differs-from-the-union-of-the-peers-histories/concurrent-peers-on-disjoint-keys", fmt.Sprintf("after %d peers ran SET/UNSET on disjoint keys: registry has %d of their entries, their histories leave %d; registry=%v histories=%v", peers, len(got), len(want), got, want), nil)
+		}
+		rec.Distinct(fmt.Sprintf("concurrent-peers|agree=%v", reflect.DeepEqual(got, want)))
 	}
 	// ---- real TCP portmapper on a high port, loopback client ----
 	pm := NewPortmapper()
